@@ -113,7 +113,11 @@ def project(fig, path, names, all_axes=False):
     P["gridcolor"] = g[1] if len(g) > 1 else None
     P["gridstyle"] = g[2] if len(g) > 1 else None
     P["gridwidth"] = g[3] if len(g) > 1 else None
-    P["perfectline"] = "shown" if any(l.get_label() == "ideal" for l in ax0.get_lines()) else "absent"
+    # shown = drawn AND inside the picture (the y-range of the axes covers it)
+    ylo, yhi = sorted(ax0.get_ylim())
+    eps = 1e-9 * max(1.0, abs(ylo), abs(yhi))
+    ideal = [l for l in ax0.get_lines() if l.get_label() == "ideal"]
+    P["perfectline"] = "absent" if not ideal else ("shown" if all(ylo - eps <= float(v) <= yhi + eps for l in ideal for v in l.get_ydata()) else "outside-the-axes")
     asp = ax0.get_aspect()
     P["aspect"] = asp if isinstance(asp, str) else round(float(asp), 6)
     P["figsize"] = tuple(round(float(v), 3) for v in fig.get_size_inches())
